@@ -52,6 +52,9 @@ func goEnv() []string {
 
 // build compiles the worker from the current /repo tree.
 func (e *env) build(race, cover bool) (string, error) {
+	if w := os.Getenv("VERIF_WORKER"); w != "" && !race {
+		return w, nil // measuring aid (coverage build made elsewhere); never set by a registered command
+	}
 	name := "vworker"
 	args := []string{"build", "-tags", "verif"}
 	if race {
@@ -77,6 +80,15 @@ func (e *env) build(race, cover bool) (string, error) {
 		return "", fmt.Errorf("go %s: %v\n%s", strings.Join(args, " "), err, b)
 	}
 	return out, nil
+}
+
+func coverDir(e *env) string {
+	d := os.Getenv("VERIF_COVER")
+	if d == "" {
+		d = filepath.Join(e.scratch, "cover")
+	}
+	os.MkdirAll(d, 0o755)
+	return d
 }
 
 // A result is what one worker process left behind.
@@ -167,7 +179,7 @@ func (e *env) runWorker(bin string, j *job.Job, n int, cpuS, asKB int, wallS int
 	}
 	cmd := exec.Command("sh", "-c", lim+"exec \"$0\" job.json", bin)
 	cmd.Dir = dir
-	cmd.Env = append(os.Environ(), "GORACE=halt_on_error=0 log_path="+filepath.Join(dir, "race"), "GOTRACEBACK=all", "GOCOVERDIR="+filepath.Join(e.scratch, "cover"))
+	cmd.Env = append(os.Environ(), "GORACE=halt_on_error=0 log_path="+filepath.Join(dir, "race"), "GOTRACEBACK=all", "GOCOVERDIR="+coverDir(e))
 	so, _ := os.Create(filepath.Join(dir, "stdout"))
 	se, _ := os.Create(filepath.Join(dir, "stderr"))
 	cmd.Stdout, cmd.Stderr = so, se
@@ -497,7 +509,9 @@ func (e *env) run(prop string) int {
 	bins := map[bool]string{}
 	for _, s := range specs {
 		if _, ok := bins[s.race]; !ok {
-			b, err := e.build(s.race, false)
+			// VERIF_COVER=<dir> (a measuring aid, never set by a registered command): the worker
+			// is built with statement coverage of goyang and leaves its counters in <dir>
+			b, err := e.build(s.race, os.Getenv("VERIF_COVER") != "")
 			if err != nil {
 				fatal(2, "cannot build the worker from /repo: %v", err)
 			}
